@@ -44,7 +44,7 @@ Record state := St { s_db : db; s_init : bool; s_clock : Z; s_ver : version }.
 Inductive layout_kind := LModelsDropped | LModelsWrong | LModelsExtra | LMetaDropped | LMetaWrong | LMetaEmptied.
 
 Inductive op :=
-| Parse (t : nat) (days : Z) (upd : bool)
+| Parse (t : nat) (exp : Z) (upd : bool)   (* exp: cache_expiration_days IN MICROSECONDS (n days = n * DAY) *)
 | Reload
 | SetVersion (v : version)
 | Advance (dt : Z)
@@ -87,17 +87,19 @@ Definition check_structure (d : db) : db :=
   | other => other
   end.
 
-(* parser.py:1032-1034 DELETE FROM models WHERE last_hit < now - days *)
-Definition prune (now days : Z) (d : db) : db :=
+(* parser.py prune step: DELETE FROM models WHERE last_hit < now - expiration.
+   [exp] is cache_expiration_days converted to microseconds (exp * 86 400 000 000; any integer, also negative or
+   astronomically large: Z is unbounded, which is what makes the real code's plain integer arithmetic total) *)
+Definition prune (now exp : Z) (d : db) : db :=
   match d with
-  | Db (MOk x rows) t => Db (MOk x (filter (fun r => negb (r_hit r <? now - days * DAY)) rows)) t
+  | Db (MOk x rows) t => Db (MOk x (filter (fun r => negb (r_hit r <? now - exp)) rows)) t
   | _ => d
   end.
 
 (* parser.py:1009-1048: the database as the lookup sees it *)
-Definition init_db (s : state) (days : Z) : db :=
+Definition init_db (s : state) (exp : Z) : db :=
   let d0 := connect (s_db s) in
-  if s_init s then d0 else prune (s_clock s) days (check_structure (integrity d0)).
+  if s_init s then d0 else prune (s_clock s) exp (check_structure (integrity d0)).
 
 (* what a reader of the sqlite file sees *)
 Inductive bstat := BGood | BNone | BRaises (e : exn) | BOther.
@@ -120,11 +122,11 @@ Section Model.
     if handles_dberr then (St d false (s_clock s) (s_ver s), fresh_out t, 1%nat)
     else (St d true (s_clock s) (s_ver s), ODbRaise e, 0%nat).
 
-  Definition parse_step (s : state) (t : nat) (days : Z) (upd : bool) : state * out * nat :=
+  Definition parse_step (s : state) (t : nat) (exp : Z) (upd : bool) : state * out * nat :=
     match s_ver s with
     | Dirty _ => (s, fresh_out t, 1%nat)                                     (* parser.py:998-1000 *)
     | Clean v =>
-      match init_db s days with
+      match init_db s exp with
       | Db (MOk x rows) mt =>
         match lookup t v rows with
         | None => miss x rows mt s v t
@@ -163,7 +165,7 @@ Section Model.
 
   Definition step (s : state) (o : op) : state * out * nat :=
     match o with
-    | Parse t days upd => parse_step s t days upd
+    | Parse t exp upd => parse_step s t exp upd
     | Reload => (St (s_db s) false (s_clock s) (s_ver s), ONone, 0%nat)
     | SetVersion v => (St (s_db s) (s_init s) (s_clock s) v, ONone, 0%nat)
     | Advance dt => (St (s_db s) (s_init s) (s_clock s + Z.max 0 dt) (s_ver s), ONone, 0%nat)
